@@ -32,7 +32,13 @@ def load_contracts():
 def _worker(args):
     qualname, tier, extra_false = args
     from pyvc.api import REG
-    from pyvc.verify import verify_function
+    from pyvc.verify import verify_function, verify_lemma
+    if qualname.startswith("lemma:"):
+        lem = next(l for l in REG.lemmas if l["name"] == qualname[6:])
+        rep = verify_lemma(REG, lem, tier)
+        return {"qualname": qualname, "file": None, "ast_hash": None, "lines": 0, "obligations": rep.obligations,
+                "error": rep.error, "error_kind": rep.error_kind, "assumptions": rep.assumptions, "dropped": rep.dropped,
+                "inlined": {}, "paths": 0, "secs": rep.secs, "sanity": False, "feas_checks": 0}
     if extra_false:
         import copy
         c = copy.copy(REG.contracts[qualname])
@@ -50,6 +56,22 @@ def _worker(args):
             "obligations": rep.obligations, "error": rep.error, "error_kind": rep.error_kind,
             "assumptions": rep.assumptions, "dropped": rep.dropped, "inlined": rep.inlined, "paths": rep.paths,
             "secs": rep.secs, "sanity": bool(extra_false), "feas_checks": rep.feas_checks}
+
+
+def _smallest(targets):
+    from pyvc import locate
+    best, bl = targets[0], 10 ** 9
+    for q in targets:
+        try:
+            obj, owner, mod = locate.resolve(q)
+            fn = locate.unwrap(obj)[0]
+            fdef, _ = locate.find_def(fn)
+            n = fdef.end_lineno - fdef.lineno
+            if n < bl and not any(isinstance(x, (__import__("ast").ListComp, __import__("ast").For)) for x in __import__("ast").walk(fdef)):
+                best, bl = q, n
+        except Exception:
+            continue
+    return best
 
 
 def known_findings():
@@ -100,8 +122,12 @@ def run_property(REG, prop, tier, seed, t0):
         print(f"no obligations are defined for {prop}")
         return 3
     jobs = [(q, tier, False) for q in targets]
+    for lem in REG.lemmas:
+        if prop in lem.get("props", []):
+            jobs.append(("lemma:" + lem["name"], tier, False))
     if targets:
-        jobs.append((targets[0], tier, True))      # deliberately false obligation: must come back refuted
+        # deliberately false obligation (post: False) on the smallest target: must come back refuted
+        jobs.append((getattr(props_mod, "SANITY_TARGET", None) or _smallest(targets), tier, True))
     nproc = min(16, max(1, len(jobs)))
     ctx = mp.get_context("fork")
     with ctx.Pool(nproc) as pool:
